@@ -1,6 +1,7 @@
 import MesaModel.Proofs.StepCounter
 import MesaModel.Proofs.StepMro
 import MesaModel.Proofs.StepNested
+import MesaModel.Proofs.StepBinding
 /-!
 # C05 — every `step()` call advances `model.steps` by exactly one, before user code
 
@@ -24,20 +25,92 @@ return the calls in the order they start, and the theorems say they are ordinary
 -/
 namespace Mesa.Steps
 
-/-- One call, one increment: for every hierarchy, every argument list, every prior state —
-    also when the user chain raises `TypeError` half way. -/
-theorem C05_increments_exactly_once (i : Inst) (args : List Int) :
-    (callStep i args).1.steps = i.steps + 1 := rfl
+/-- **One call, one increment — because of how `Model.__init__` binds `step`.**  Take any hierarchy, construct an instance
+    (`__new__`, optionally a subclass `__init__` that assigns `self.step = f` before `super().__init__()`, then
+    `Model.__init__`: `self._user_step = self.step; self.step = self._wrapped_step`), and let the program do anything that
+    does not re-bind the name `step` on the instance — calls with any arguments, raising or not, assignments to
+    `_user_step`.  Then the next `model.step(*args)` finds the wrapper in the instance `__dict__`, advances `steps` by
+    exactly one, the wrapper stays in place, and `steps` equals the number of calls made so far. -/
+theorem C05_increments_exactly_once (h : Hier) (stopAt : Nat) (pre : Option Nat) (ops : List BOp)
+    (hops : ∀ op ∈ ops, op.rebindsStep = false) (args : List Int) :
+    let o := (Obj.construct h stopAt pre).run ops
+    (o.call args).obj.inst.steps = o.inst.steps + 1 ∧
+    (o.call args).obj.dictStep = some .wrapper ∧
+    o.inst.steps = (ops.filter (·.isCall)).length := by
+  have hc := construct_wrapped h stopAt pre
+  obtain ⟨h1, h2⟩ := run_keeps_wrapper _ hc.1 ops hops
+  have := call_wrapped_steps _ h1 args
+  exact ⟨this.1, this.2.1, by rw [h2, hc.2.1]; simp⟩
 
-/-- The increment happens before any user code: every body that runs during the call sees the
-    already incremented counter. -/
-theorem C05_increment_before_user_code (i : Inst) (args : List Int) :
-    ∀ e ∈ (callStep i args).2.1, e.steps = i.steps + 1 :=
-  runChain_steps _ _ _ _
+/-- The increment happens before any user code: everything that runs during the call — the step bodies of the class
+    chain, or the function the program supplied as `step` / `_user_step` — sees the already incremented counter. -/
+theorem C05_increment_before_user_code (h : Hier) (stopAt : Nat) (pre : Option Nat) (ops : List BOp)
+    (hops : ∀ op ∈ ops, op.rebindsStep = false) (args : List Int) :
+    let o := (Obj.construct h stopAt pre).run ops
+    (∀ e ∈ (o.call args).entries, e.steps = o.inst.steps + 1) ∧ (∀ c ∈ (o.call args).fns, c.steps = o.inst.steps + 1) := by
+  have hc := construct_wrapped h stopAt pre
+  obtain ⟨h1, _⟩ := run_keeps_wrapper _ hc.1 ops hops
+  have := call_wrapped_steps _ h1 args
+  exact ⟨this.2.2.2.1, this.2.2.2.2⟩
+
+/-- What the wrapper delegates to is what the lookup `self.step` found when `Model.__init__` ran: without an instance
+    attribute the class's own `step` — then the call is exactly `callStep` of the chain model below, whose theorems say
+    which bodies run —, and a function assigned before `super().__init__()` otherwise (called once, arguments unchanged,
+    no class body runs). -/
+theorem C05_wrapper_delegates_to_step_captured_at_init (h : Hier) (stopAt : Nat) (pre : Option Nat) (ops : List BOp)
+    (h1 : ∀ op ∈ ops, op.rebindsStep = false) (h2 : ∀ op ∈ ops, ∀ f, op ≠ .setUser f) (args : List Int) :
+    let o := (Obj.construct h stopAt pre).run ops
+    (pre = none → (o.call args).entries = (callStep o.inst args).2.1 ∧ (o.call args).ok = (callStep o.inst args).2.2 ∧
+        (o.call args).obj.inst = (callStep o.inst args).1 ∧ (o.call args).fns = []) ∧
+    (∀ f, pre = some f → (o.call args).entries = [] ∧ (o.call args).fns = [⟨f, o.inst.steps + 1, args⟩] ∧
+        (o.call args).ok = true) := by
+  have hc := construct_wrapped h stopAt pre
+  obtain ⟨hw, _⟩ := run_keeps_wrapper _ hc.1 ops h1
+  have hu := run_userStep_of_no_setUser _ hc.1 ops h1 h2
+  rw [hc.2.2] at hu
+  refine ⟨fun hp => ?_, fun f hp => ?_⟩
+  · subst hp
+    exact call_wrapped_chain _ hw hu args
+  · subst hp
+    exact call_wrapped_fn _ hw f hu args
+
+/-- **What the code does when the program re-binds `step` on the instance** (`model.step = f`, `del model.step`): the
+    wrapper is gone for good and the counter stands still — the counter counts exactly the calls made while the
+    wrapper was still the instance's `step`.  (The property speaks of `step` defined on classes; this is the boundary.) -/
+theorem C05_rebinding_step_on_the_instance_stops_the_counter (h : Hier) (stopAt : Nat) (pre : Option Nat)
+    (before : List BOp) (op : BOp) (after : List BOp)
+    (hb : ∀ x ∈ before, x.rebindsStep = false) (hop : op.rebindsStep = true) :
+    ((Obj.construct h stopAt pre).run (before ++ op :: after)).inst.steps = (before.filter (·.isCall)).length ∧
+    ((Obj.construct h stopAt pre).run (before ++ op :: after)).dictStep ≠ some .wrapper := by
+  have hc := construct_wrapped h stopAt pre
+  obtain ⟨_, h2⟩ := run_keeps_wrapper _ hc.1 before hb
+  have e : (Obj.construct h stopAt pre).run (before ++ op :: after)
+      = ((((Obj.construct h stopAt pre).run before).apply op).run after) := by
+    rw [Obj.run_append]; rfl
+  have hgone : (((Obj.construct h stopAt pre).run before).apply op).dictStep ≠ some .wrapper ∧
+      (((Obj.construct h stopAt pre).run before).apply op).inst.steps = ((Obj.construct h stopAt pre).run before).inst.steps := by
+    cases op with
+    | call args => simp [BOp.rebindsStep] at hop
+    | setUser f => simp [BOp.rebindsStep] at hop
+    | assign f => simp [Obj.apply]
+    | del => simp [Obj.apply]
+  obtain ⟨r1, r2⟩ := run_unwrapped _ hgone.1 after
+  rw [e]
+  exact ⟨by rw [r2, hgone.2, h2, hc.2.1]; simp, r1⟩
+
+/-- non-vacuity: a two-level chain, the base level overriding `step`; a function assigned before `Model.__init__`; re-binding -/
+example : ((Obj.construct [⟨false, false, false⟩, ⟨true, false, true⟩] 9 none).call [4]).entries = [⟨1, 1, [4]⟩] := by decide
+example : ((Obj.construct [⟨true, true, false⟩] 9 (some 3)).call [4]).fns = [⟨3, 1, [4]⟩] ∧
+    ((Obj.construct [⟨true, true, false⟩] 9 (some 3)).call [4]).entries = [] := by decide
+example : (((Obj.construct [⟨true, false, false⟩] 9 none).run [.call [], .assign 2, .call [], .del, .call []]).inst.steps = 1) ∧
+    (((Obj.construct [⟨true, false, false⟩] 9 none).run [.call [], .assign 2]).call []).fns = [⟨2, 1, []⟩] ∧
+    (((Obj.construct [⟨true, false, false⟩] 9 none).run [.call [], .del]).call []).entries = [⟨0, 1, []⟩] := by decide
+
+/-! ### the class chain (`callStep` = the wrapper delegating to the class's `step`, the case of the theorem above) -/
 
 /-- The user bodies that run are an initial segment of the levels that define `step`, in MRO
     order, each at most once; the wrapper itself is never re-entered (there is exactly one
-    increment, `C05_increments_exactly_once`). -/
+    increment: `callStep` is the wrapper of `C05_increments_exactly_once`). -/
 theorem C05_bodies_are_override_chain (i : Inst) (args : List Int) :
     ((callStep i args).2.1.map (·.depth)) <+: overriding i.hier 0 ∧
     ((callStep i args).2.1.map (·.depth)).Pairwise (· < ·) := by
@@ -230,7 +303,7 @@ theorem C05_nested_calls_are_ordinary_calls (links : List (Option Nat)) (f : Nat
     refine ⟨x, hx1, hx2, fun e he => ?_⟩
     have : c.entries = (callStep x c.args).2.1 := by rw [hx2]
     rw [this] at he
-    exact C05_increment_before_user_code x c.args e he
+    exact runChain_steps _ _ _ _ e he
   · show (stepNested links f w i args).1[j]?.map (·.steps) = _
     rw [h1]
     have hcount := C05_all_interleavings_count ((stepNested links f w i args).2.map Call.toOp)
